@@ -199,6 +199,45 @@ def run(ctx):
                 if not ok:
                     ctx.spec_fail('sort|cache=%s|history' % cache, 'sort does not follow the cache clause over this history',
                                   {'table': repr(T), 'cache': cache, 'history': hist})
+        # strategy arguments on inputs that 8-row tables cannot provide: hundreds of chunk files, and keys that are equal
+        # under the ordering without being equal objects of one type (a tuple and a list with the same items)
+        big = [['k', 'i']] + [[rng.choice([None, 1, 2, 'a']), i] for i in range(420)]
+        mixed = [['k', 'i']] + [[[(1, 2), [1, 2]][i % 2] if i % 3 else 5, i] for i in range(7)]
+        big_ops = [('sort', lambda t, **kw: etl.sort(t, 'k', **kw)),
+                   ('sort(reverse)', lambda t, **kw: etl.sort(t, 'k', reverse=True, **kw)),
+                   ('groupselectfirst', lambda t, **kw: etl.groupselectfirst(t, 'k', **kw)),
+                   ('groupselectlast', lambda t, **kw: etl.groupselectlast(t, 'k', **kw)),
+                   ('distinct(key)', lambda t, **kw: etl.distinct(t, 'k', **kw)),
+                   ('aggregate(list)', lambda t, **kw: etl.aggregate(t, 'k', list, 'i', **kw)),
+                   ('lookupjoin', lambda t, **kw: etl.lookupjoin(t, t, key='k', **kw)),
+                   ('mergesort', lambda t, **kw: etl.mergesort(t, t, key='k', **kw))]
+        for tname, t, sizes in (('420 rows', big, (1, 2, 3)), ('tuple/list keys', mixed, (1, 2, 3, 4, 8))):
+            for name, call in big_ops:
+                default = util.run_show(lambda: call(t))
+                for bs in sizes:
+                    for how in ('arg', 'config'):
+                        for cache in (True, False):
+                            config.sort_buffersize = saved
+                            try:
+                                if how == 'config':
+                                    config.sort_buffersize = bs
+                                    v = call(t, cache=cache)
+                                else:
+                                    v = call(t, buffersize=bs, cache=cache)
+                                outs = [util.run_show(lambda: v) for _ in (1, 2)]
+                            except Exception as e:   # noqa
+                                outs = ['TB0 ERR ' + util.errkind(e)]
+                            finally:
+                                config.sort_buffersize = saved
+                            ctx.case((name, tname, bs, how, cache))
+                            ctx.count('arg:many-chunks/ordering-ties')
+                            for pno, out in enumerate(outs, 1):
+                                if out != default:
+                                    ctx.spec_fail('%s|%s|differs' % (name, 'many-chunks' if t is big else 'tuple-list-keys'),
+                                                  '%s on %s: buffersize %d (%s), cache=%s, pass %d changes the result'
+                                                  % (name, tname, bs, 'petl.config.sort_buffersize' if how == 'config' else 'argument', cache, pno),
+                                                  {'op': name, 'table': tname if t is big else repr(t), 'buffersize': bs, 'from': how, 'cache': cache, 'pass': pno})
+                                    break
     finally:
         config.sort_buffersize = saved
         shutil.rmtree(tmpd, ignore_errors=True)
